@@ -122,6 +122,19 @@ def gen_anchors():
         r"globalDepth \+= localDepthPeak\s*localDepth = 0\s*localDepthPeak = 0\s*\}\s*globalDepth\+\+", lb.group(1), re.S)) \
         and bool(re.search(r"case keyword\.LPAREN:\s*parenDepth\+\+\s*case keyword\.RPAREN:\s*parenDepth--", body)) \
         and bool(re.search(r"if next\.Keyword != keyword\.COMMENT \{\s*prev = next\.Keyword\s*\}", body))
+    # the repairs of the lexer and of ast.PrintValue that the model follows (coq/C05/PreFix.v has the code they replaced)
+    rr = func_body(lx, "readRune")
+    nul_kept = bool(re.search(r"if r == runes\.EOF \{\s*(?://[^\n]*\n\s*)*return\s*\}.*InputPosition\+\+", rr, re.S))
+    rb = func_body(lx, "readBlockString")
+    quotes_content = bool(re.search(
+        r"next := l\.readRune\(\)\s*if quoteCount != 0 && next != runes\.QUOTE \{\s*(?://[^\n]*\n\s*)*if !reachedFirstNonWhitespace \{\s*"
+        r"reachedFirstNonWhitespace = true\s*leadingWhitespaceToken = whitespaceCount\s*\}\s*whitespaceCount = 0\s*\}\s*switch next", rb, re.S)) \
+        and bool(re.search(r"case runes\.BACKSLASH:\s*if !reachedFirstNonWhitespace \{\s*reachedFirstNonWhitespace = true\s*"
+                           r"leadingWhitespaceToken = whitespaceCount\s*\}\s*escaped = !escaped", rb, re.S))
+    pv = func_body(rd("v2/pkg/ast/ast_value.go"), "PrintValue")
+    block_nl = bool(re.search(
+        r"if isBlockString && len\(content\) > 0 && \(content\[len\(content\)-1\] == '\"' \|\| content\[len\(content\)-1\] == '\\\\'\) \{\s*"
+        r"(?://[^\n]*\n\s*)*_, err = w\.Write\(literal\.LINETERMINATOR\)", pv, re.S))
     special = ["HASHTAG", "QUOTE", "DOT", "BACKSLASH", "LINETERMINATOR", "CARRIAGERETURN", "SPACE", "TAB",
                "EXPONENT_LOWER", "EXPONENT_UPPER", "SUB", "ADD"]
     txt = "(* GENERATED by tools/props/c05.py from /repo -- do not edit *)\n"
@@ -139,6 +152,9 @@ def gen_anchors():
     txt += "Definition anchor_limit_def_keywords : list bytes := %s.\n" % coq_list(coq_bytes(n.encode()) for n in defkw)
     txt += "Definition anchor_limit_reset_guarded : bool := %s.\n" % ("true" if guarded else "false")
     txt += "Definition anchor_limit_shorthand_period : bool := %s.\n" % ("true" if shorthand else "false")
+    txt += "Definition anchor_lexer_nul_not_consumed : bool := %s.\n" % ("true" if nul_kept else "false")
+    txt += "Definition anchor_lexer_block_quotes_are_content : bool := %s.\n" % ("true" if quotes_content else "false")
+    txt += "Definition anchor_print_block_newline_after_quote : bool := %s.\n" % ("true" if block_nl else "false")
     return write_if_changed(os.path.join(vlib.COQ, "gen", "Anchors_C05.v"), txt)
 
 
